@@ -14,7 +14,7 @@ theorem ttt : TT.BOOL = 2 ∧ TT.BYTE = 3 ∧ TT.DOUBLE = 4 ∧ TT.I16 = 6 ∧ T
 
 theorem readUF_BOOL (m : Nat) (b : Bytes) (t : UInt8) (id : UInt16) (h : t = UT.BOOL) :
     readUF (m+1) b t id = scalarUF id t (rdBool b) := by
-  subst h; simp [readUF, utt.1, utt.2.1, utt.2.2.1, utt.2.2.2.1, utt.2.2.2.2.1, utt.2.2.2.2.2.1, utt.2.2.2.2.2.2.1, utt.2.2.2.2.2.2.2.1, utt.2.2.2.2.2.2.2.2.1, utt.2.2.2.2.2.2.2.2.2.1, utt.2.2.2.2.2.2.2.2.2.2.1, utt.2.2.2.2.2.2.2.2.2.2.2] <;> rfl
+  subst h; simp [readUF, readNode, utt.1, utt.2.1, utt.2.2.1, utt.2.2.2.1, utt.2.2.2.2.1, utt.2.2.2.2.2.1, utt.2.2.2.2.2.2.1, utt.2.2.2.2.2.2.2.1, utt.2.2.2.2.2.2.2.2.1, utt.2.2.2.2.2.2.2.2.2.1, utt.2.2.2.2.2.2.2.2.2.2.1, utt.2.2.2.2.2.2.2.2.2.2.2] <;> rfl
 
 theorem writeUF_BOOL (m : Nat) (f : UF (m+1)) (h : f.1.typ = UT.BOOL) :
     writeUF (m+1) f =
@@ -29,7 +29,7 @@ theorem wt_BOOL (m : Nat) (f : UF (m+1)) (h : f.1.typ = UT.BOOL) :
 
 theorem readUF_BYTE (m : Nat) (b : Bytes) (t : UInt8) (id : UInt16) (h : t = UT.BYTE) :
     readUF (m+1) b t id = scalarUF id t (rdByte b) := by
-  subst h; simp [readUF, utt.1, utt.2.1, utt.2.2.1, utt.2.2.2.1, utt.2.2.2.2.1, utt.2.2.2.2.2.1, utt.2.2.2.2.2.2.1, utt.2.2.2.2.2.2.2.1, utt.2.2.2.2.2.2.2.2.1, utt.2.2.2.2.2.2.2.2.2.1, utt.2.2.2.2.2.2.2.2.2.2.1, utt.2.2.2.2.2.2.2.2.2.2.2] <;> rfl
+  subst h; simp [readUF, readNode, utt.1, utt.2.1, utt.2.2.1, utt.2.2.2.1, utt.2.2.2.2.1, utt.2.2.2.2.2.1, utt.2.2.2.2.2.2.1, utt.2.2.2.2.2.2.2.1, utt.2.2.2.2.2.2.2.2.1, utt.2.2.2.2.2.2.2.2.2.1, utt.2.2.2.2.2.2.2.2.2.2.1, utt.2.2.2.2.2.2.2.2.2.2.2] <;> rfl
 
 theorem writeUF_BYTE (m : Nat) (f : UF (m+1)) (h : f.1.typ = UT.BYTE) :
     writeUF (m+1) f =
@@ -44,7 +44,7 @@ theorem wt_BYTE (m : Nat) (f : UF (m+1)) (h : f.1.typ = UT.BYTE) :
 
 theorem readUF_I16 (m : Nat) (b : Bytes) (t : UInt8) (id : UInt16) (h : t = UT.I16) :
     readUF (m+1) b t id = scalarUF id t (rdI16 b) := by
-  subst h; simp [readUF, utt.1, utt.2.1, utt.2.2.1, utt.2.2.2.1, utt.2.2.2.2.1, utt.2.2.2.2.2.1, utt.2.2.2.2.2.2.1, utt.2.2.2.2.2.2.2.1, utt.2.2.2.2.2.2.2.2.1, utt.2.2.2.2.2.2.2.2.2.1, utt.2.2.2.2.2.2.2.2.2.2.1, utt.2.2.2.2.2.2.2.2.2.2.2] <;> rfl
+  subst h; simp [readUF, readNode, utt.1, utt.2.1, utt.2.2.1, utt.2.2.2.1, utt.2.2.2.2.1, utt.2.2.2.2.2.1, utt.2.2.2.2.2.2.1, utt.2.2.2.2.2.2.2.1, utt.2.2.2.2.2.2.2.2.1, utt.2.2.2.2.2.2.2.2.2.1, utt.2.2.2.2.2.2.2.2.2.2.1, utt.2.2.2.2.2.2.2.2.2.2.2] <;> rfl
 
 theorem writeUF_I16 (m : Nat) (f : UF (m+1)) (h : f.1.typ = UT.I16) :
     writeUF (m+1) f =
@@ -59,7 +59,7 @@ theorem wt_I16 (m : Nat) (f : UF (m+1)) (h : f.1.typ = UT.I16) :
 
 theorem readUF_I32 (m : Nat) (b : Bytes) (t : UInt8) (id : UInt16) (h : t = UT.I32) :
     readUF (m+1) b t id = scalarUF id t (rdI32 b) := by
-  subst h; simp [readUF, utt.1, utt.2.1, utt.2.2.1, utt.2.2.2.1, utt.2.2.2.2.1, utt.2.2.2.2.2.1, utt.2.2.2.2.2.2.1, utt.2.2.2.2.2.2.2.1, utt.2.2.2.2.2.2.2.2.1, utt.2.2.2.2.2.2.2.2.2.1, utt.2.2.2.2.2.2.2.2.2.2.1, utt.2.2.2.2.2.2.2.2.2.2.2] <;> rfl
+  subst h; simp [readUF, readNode, utt.1, utt.2.1, utt.2.2.1, utt.2.2.2.1, utt.2.2.2.2.1, utt.2.2.2.2.2.1, utt.2.2.2.2.2.2.1, utt.2.2.2.2.2.2.2.1, utt.2.2.2.2.2.2.2.2.1, utt.2.2.2.2.2.2.2.2.2.1, utt.2.2.2.2.2.2.2.2.2.2.1, utt.2.2.2.2.2.2.2.2.2.2.2] <;> rfl
 
 theorem writeUF_I32 (m : Nat) (f : UF (m+1)) (h : f.1.typ = UT.I32) :
     writeUF (m+1) f =
@@ -74,7 +74,7 @@ theorem wt_I32 (m : Nat) (f : UF (m+1)) (h : f.1.typ = UT.I32) :
 
 theorem readUF_I64 (m : Nat) (b : Bytes) (t : UInt8) (id : UInt16) (h : t = UT.I64) :
     readUF (m+1) b t id = scalarUF id t (rdI64 b) := by
-  subst h; simp [readUF, utt.1, utt.2.1, utt.2.2.1, utt.2.2.2.1, utt.2.2.2.2.1, utt.2.2.2.2.2.1, utt.2.2.2.2.2.2.1, utt.2.2.2.2.2.2.2.1, utt.2.2.2.2.2.2.2.2.1, utt.2.2.2.2.2.2.2.2.2.1, utt.2.2.2.2.2.2.2.2.2.2.1, utt.2.2.2.2.2.2.2.2.2.2.2] <;> rfl
+  subst h; simp [readUF, readNode, utt.1, utt.2.1, utt.2.2.1, utt.2.2.2.1, utt.2.2.2.2.1, utt.2.2.2.2.2.1, utt.2.2.2.2.2.2.1, utt.2.2.2.2.2.2.2.1, utt.2.2.2.2.2.2.2.2.1, utt.2.2.2.2.2.2.2.2.2.1, utt.2.2.2.2.2.2.2.2.2.2.1, utt.2.2.2.2.2.2.2.2.2.2.2] <;> rfl
 
 theorem writeUF_I64 (m : Nat) (f : UF (m+1)) (h : f.1.typ = UT.I64) :
     writeUF (m+1) f =
@@ -89,7 +89,7 @@ theorem wt_I64 (m : Nat) (f : UF (m+1)) (h : f.1.typ = UT.I64) :
 
 theorem readUF_DOUBLE (m : Nat) (b : Bytes) (t : UInt8) (id : UInt16) (h : t = UT.DOUBLE) :
     readUF (m+1) b t id = scalarUF id t (rdDouble b) := by
-  subst h; simp [readUF, utt.1, utt.2.1, utt.2.2.1, utt.2.2.2.1, utt.2.2.2.2.1, utt.2.2.2.2.2.1, utt.2.2.2.2.2.2.1, utt.2.2.2.2.2.2.2.1, utt.2.2.2.2.2.2.2.2.1, utt.2.2.2.2.2.2.2.2.2.1, utt.2.2.2.2.2.2.2.2.2.2.1, utt.2.2.2.2.2.2.2.2.2.2.2] <;> rfl
+  subst h; simp [readUF, readNode, utt.1, utt.2.1, utt.2.2.1, utt.2.2.2.1, utt.2.2.2.2.1, utt.2.2.2.2.2.1, utt.2.2.2.2.2.2.1, utt.2.2.2.2.2.2.2.1, utt.2.2.2.2.2.2.2.2.1, utt.2.2.2.2.2.2.2.2.2.1, utt.2.2.2.2.2.2.2.2.2.2.1, utt.2.2.2.2.2.2.2.2.2.2.2] <;> rfl
 
 theorem writeUF_DOUBLE (m : Nat) (f : UF (m+1)) (h : f.1.typ = UT.DOUBLE) :
     writeUF (m+1) f =
@@ -104,7 +104,7 @@ theorem wt_DOUBLE (m : Nat) (f : UF (m+1)) (h : f.1.typ = UT.DOUBLE) :
 
 theorem readUF_STRING (m : Nat) (b : Bytes) (t : UInt8) (id : UInt16) (h : t = UT.STRING) :
     readUF (m+1) b t id = scalarUF id t (rdStr b) := by
-  subst h; simp [readUF, utt.1, utt.2.1, utt.2.2.1, utt.2.2.2.1, utt.2.2.2.2.1, utt.2.2.2.2.2.1, utt.2.2.2.2.2.2.1, utt.2.2.2.2.2.2.2.1, utt.2.2.2.2.2.2.2.2.1, utt.2.2.2.2.2.2.2.2.2.1, utt.2.2.2.2.2.2.2.2.2.2.1, utt.2.2.2.2.2.2.2.2.2.2.2] <;> rfl
+  subst h; simp [readUF, readNode, utt.1, utt.2.1, utt.2.2.1, utt.2.2.2.1, utt.2.2.2.2.1, utt.2.2.2.2.2.1, utt.2.2.2.2.2.2.1, utt.2.2.2.2.2.2.2.1, utt.2.2.2.2.2.2.2.2.1, utt.2.2.2.2.2.2.2.2.2.1, utt.2.2.2.2.2.2.2.2.2.2.1, utt.2.2.2.2.2.2.2.2.2.2.2] <;> rfl
 
 theorem writeUF_STRING (m : Nat) (f : UF (m+1)) (h : f.1.typ = UT.STRING) :
     writeUF (m+1) f =
@@ -119,7 +119,7 @@ theorem wt_STRING (m : Nat) (f : UF (m+1)) (h : f.1.typ = UT.STRING) :
 
 theorem readUF_SET (m : Nat) (b : Bytes) (t : UInt8) (id : UInt16) (h : t = UT.SET) :
     readUF (m+1) b t id = readListLike (fun et s i => readUF m s et i) id t b := by
-  subst h; simp [readUF, utt.1, utt.2.1, utt.2.2.1, utt.2.2.2.1, utt.2.2.2.2.1, utt.2.2.2.2.2.1, utt.2.2.2.2.2.2.1, utt.2.2.2.2.2.2.2.1, utt.2.2.2.2.2.2.2.2.1, utt.2.2.2.2.2.2.2.2.2.1, utt.2.2.2.2.2.2.2.2.2.2.1, utt.2.2.2.2.2.2.2.2.2.2.2] <;> rfl
+  subst h; simp [readUF, readNode, utt.1, utt.2.1, utt.2.2.1, utt.2.2.2.1, utt.2.2.2.2.1, utt.2.2.2.2.2.1, utt.2.2.2.2.2.2.1, utt.2.2.2.2.2.2.2.1, utt.2.2.2.2.2.2.2.2.1, utt.2.2.2.2.2.2.2.2.2.1, utt.2.2.2.2.2.2.2.2.2.2.1, utt.2.2.2.2.2.2.2.2.2.2.2] <;> rfl
 
 theorem writeUF_SET (m : Nat) (f : UF (m+1)) (h : f.1.typ = UT.SET) :
     writeUF (m+1) f =
@@ -137,7 +137,7 @@ theorem wt_SET (m : Nat) (f : UF (m+1)) (h : f.1.typ = UT.SET) :
 
 theorem readUF_LIST (m : Nat) (b : Bytes) (t : UInt8) (id : UInt16) (h : t = UT.LIST) :
     readUF (m+1) b t id = readListLike (fun et s i => readUF m s et i) id t b := by
-  subst h; simp [readUF, utt.1, utt.2.1, utt.2.2.1, utt.2.2.2.1, utt.2.2.2.2.1, utt.2.2.2.2.2.1, utt.2.2.2.2.2.2.1, utt.2.2.2.2.2.2.2.1, utt.2.2.2.2.2.2.2.2.1, utt.2.2.2.2.2.2.2.2.2.1, utt.2.2.2.2.2.2.2.2.2.2.1, utt.2.2.2.2.2.2.2.2.2.2.2] <;> rfl
+  subst h; simp [readUF, readNode, utt.1, utt.2.1, utt.2.2.1, utt.2.2.2.1, utt.2.2.2.2.1, utt.2.2.2.2.2.1, utt.2.2.2.2.2.2.1, utt.2.2.2.2.2.2.2.1, utt.2.2.2.2.2.2.2.2.1, utt.2.2.2.2.2.2.2.2.2.1, utt.2.2.2.2.2.2.2.2.2.2.1, utt.2.2.2.2.2.2.2.2.2.2.2] <;> rfl
 
 theorem writeUF_LIST (m : Nat) (f : UF (m+1)) (h : f.1.typ = UT.LIST) :
     writeUF (m+1) f =
@@ -155,7 +155,7 @@ theorem wt_LIST (m : Nat) (f : UF (m+1)) (h : f.1.typ = UT.LIST) :
 
 theorem readUF_MAP (m : Nat) (b : Bytes) (t : UInt8) (id : UInt16) (h : t = UT.MAP) :
     readUF (m+1) b t id = readMapLike (fun et s i => readUF m s et i) id t b := by
-  subst h; simp [readUF, utt.1, utt.2.1, utt.2.2.1, utt.2.2.2.1, utt.2.2.2.2.1, utt.2.2.2.2.2.1, utt.2.2.2.2.2.2.1, utt.2.2.2.2.2.2.2.1, utt.2.2.2.2.2.2.2.2.1, utt.2.2.2.2.2.2.2.2.2.1, utt.2.2.2.2.2.2.2.2.2.2.1, utt.2.2.2.2.2.2.2.2.2.2.2] <;> rfl
+  subst h; simp [readUF, readNode, utt.1, utt.2.1, utt.2.2.1, utt.2.2.2.1, utt.2.2.2.2.1, utt.2.2.2.2.2.1, utt.2.2.2.2.2.2.1, utt.2.2.2.2.2.2.2.1, utt.2.2.2.2.2.2.2.2.1, utt.2.2.2.2.2.2.2.2.2.1, utt.2.2.2.2.2.2.2.2.2.2.1, utt.2.2.2.2.2.2.2.2.2.2.2] <;> rfl
 
 theorem writeUF_MAP (m : Nat) (f : UF (m+1)) (h : f.1.typ = UT.MAP) :
     writeUF (m+1) f =
@@ -167,14 +167,14 @@ theorem writeUF_MAP (m : Nat) (f : UF (m+1)) (h : f.1.typ = UT.MAP) :
 
 theorem wt_MAP (m : Nat) (f : UF (m+1)) (h : f.1.typ = UT.MAP) :
     wt (m+1) f = ((match f.2 with
-       | .fields kvs => decide (kvs.length / 2 < 4294967296) && kvsOK (ufMeta m) (wt m) f.1.kt f.1.vt 0 kvs
+       | .fields kvs => decide (kvs.length / 2 < 4294967296) && ufKvsOK (ufMeta m) (wt m) f.1.kt f.1.vt 0 kvs
        | _ => false)) := by
   simp [wt, h, utt.1, utt.2.1, utt.2.2.1, utt.2.2.2.1, utt.2.2.2.2.1, utt.2.2.2.2.2.1, utt.2.2.2.2.2.2.1, utt.2.2.2.2.2.2.2.1, utt.2.2.2.2.2.2.2.2.1, utt.2.2.2.2.2.2.2.2.2.1, utt.2.2.2.2.2.2.2.2.2.2.1, utt.2.2.2.2.2.2.2.2.2.2.2, ttt.1, ttt.2.1, ttt.2.2.1, ttt.2.2.2.1, ttt.2.2.2.2.1, ttt.2.2.2.2.2.1, ttt.2.2.2.2.2.2.1, ttt.2.2.2.2.2.2.2.1, ttt.2.2.2.2.2.2.2.2.1, ttt.2.2.2.2.2.2.2.2.2.1, ttt.2.2.2.2.2.2.2.2.2.2] <;> rfl
 
 theorem readUF_STRUCT (m : Nat) (b : Bytes) (t : UInt8) (id : UInt16) (h : t = UT.STRUCT) :
     readUF (m+1) b t id = (readFields (fun s ft fid => readUF m s ft fid) (b.length + 1) b 0).bind fun rs =>
       .ok ((⟨id, t, 0, 0⟩, .fields rs.1), rs.2) := by
-  subst h; simp [readUF, utt.1, utt.2.1, utt.2.2.1, utt.2.2.2.1, utt.2.2.2.2.1, utt.2.2.2.2.2.1, utt.2.2.2.2.2.2.1, utt.2.2.2.2.2.2.2.1, utt.2.2.2.2.2.2.2.2.1, utt.2.2.2.2.2.2.2.2.2.1, utt.2.2.2.2.2.2.2.2.2.2.1, utt.2.2.2.2.2.2.2.2.2.2.2] <;> rfl
+  subst h; simp [readUF, readNode, utt.1, utt.2.1, utt.2.2.1, utt.2.2.2.1, utt.2.2.2.2.1, utt.2.2.2.2.2.1, utt.2.2.2.2.2.2.1, utt.2.2.2.2.2.2.2.1, utt.2.2.2.2.2.2.2.2.1, utt.2.2.2.2.2.2.2.2.2.1, utt.2.2.2.2.2.2.2.2.2.2.1, utt.2.2.2.2.2.2.2.2.2.2.2] <;> rfl
 
 theorem writeUF_STRUCT (m : Nat) (f : UF (m+1)) (h : f.1.typ = UT.STRUCT) :
     writeUF (m+1) f =
@@ -186,5 +186,12 @@ theorem writeUF_STRUCT (m : Nat) (f : UF (m+1)) (h : f.1.typ = UT.STRUCT) :
 theorem wt_STRUCT (m : Nat) (f : UF (m+1)) (h : f.1.typ = UT.STRUCT) :
     wt (m+1) f = (f.1.kt == 0 && f.1.vt == 0 && (match f.2 with | .fields fs => fs.all (wt m) | _ => false)) := by
   simp [wt, h, utt.1, utt.2.1, utt.2.2.1, utt.2.2.2.1, utt.2.2.2.2.1, utt.2.2.2.2.2.1, utt.2.2.2.2.2.2.1, utt.2.2.2.2.2.2.2.1, utt.2.2.2.2.2.2.2.2.1, utt.2.2.2.2.2.2.2.2.2.1, utt.2.2.2.2.2.2.2.2.2.2.1, utt.2.2.2.2.2.2.2.2.2.2.2, ttt.1, ttt.2.1, ttt.2.2.1, ttt.2.2.2.1, ttt.2.2.2.2.1, ttt.2.2.2.2.2.1, ttt.2.2.2.2.2.2.1, ttt.2.2.2.2.2.2.2.1, ttt.2.2.2.2.2.2.2.2.1, ttt.2.2.2.2.2.2.2.2.2.1, ttt.2.2.2.2.2.2.2.2.2.2] <;> rfl
+
+theorem readUF_unknown (m : Nat) (b : Bytes) (t : UInt8) (id : UInt16)
+    (h : t ≠ UT.BOOL ∧ t ≠ UT.BYTE ∧ t ≠ UT.I16 ∧ t ≠ UT.I32 ∧ t ≠ UT.I64 ∧ t ≠ UT.DOUBLE ∧ t ≠ UT.STRING ∧
+      t ≠ UT.SET ∧ t ≠ UT.LIST ∧ t ≠ UT.MAP ∧ t ≠ UT.STRUCT) :
+    readUF (m+1) b t id = .err .unktype := by
+  obtain ⟨h1, h2, h3, h4, h5, h6, h7, h8, h9, h10, h11⟩ := h
+  simp [readUF, readNode, h1, h2, h3, h4, h5, h6, h7, h8, h9, h10, h11] <;> rfl
 
 end Verif
